@@ -535,7 +535,13 @@ _ASTARB = ("re", ("seq", (("op", ("lit", 0x61), "*"), ("lit", 0x62))), False)
 _SEMI = ("match", ("lit", b";", "str"))
 _ABLOOP = ("loop", "l0", (("case", False, (((("lit", b"a", "str"),), None, ()), ((("lit", b"b", "str"),), None, (("break", "l0"),)))),))
 # programs that once failed and were repaired in /repo (see known_findings.json, status fixed): always re-run
+_COUNT = ("assign", "n0", ("bin", "+", ("var", "n0"), ("num", 1, "dec")))
+_CSLOOP = lambda lead: ("loop", None, lead + (("match", ("lit", b"a", "str")), ("case", False, (((("lit", b",", "str"),), None, ()), ((("lit", b";", "str"),), None, (("break", None),))))))  # noqa: E731
 FIXED_PROGRAMS = {
+    "optional-loop-start-actions": ir.Program([("int", "n0", True, None, 0)], ["h0"], [], [], [],
+                                              (("match", ("lit", b"x", "str")), ("optional", (_CSLOOP((("hook", "h0"), _COUNT)),)), ("match", ("lit", b"z", "str")), ("hook", "h0")), ["-O1"]),
+    "optional-loop-start-count-O3": ir.Program([("int", "n0", True, None, 0)], ["h0"], [], [], [],
+                                               (("match", ("lit", b"x", "str")), ("optional", (_CSLOOP((_COUNT,)),)), ("match", ("lit", b"z", "str")), ("hook", "h0")), ["-O3"]),
     "optional-reentrant-regex": ir.Program([], ["h0"], [], [], [], (("optional", (("match", _ASTARB),)), _SEMI), ["-O0"]),
     "optional-reentrant-regex-append": ir.Program([("str", "s0", 1, False, b"", False)], [], [], [], [], (("optional", (("append", "s0", _ASTARB),)), _SEMI), ["-O0"]),
     "optional-reentrant-loop": ir.Program([], ["h0"], [], [], [], (("optional", (_ABLOOP,)), _SEMI), ["-O3"]),
